@@ -74,6 +74,23 @@ CHECKS["C06"] = dict(
     technique="TLA+ spec (GeoIndexProps/ShuffleDesign) model-checked with TLC; TLC-generated cases replayed into GeoIndex with "
               "forced shuffle permutations; recorded traces validated by TLC (GeoTrace)")
 
+CHECKS["C04"] = dict(
+    text="CollocProps.tla defines the pair set (ring distance class <= k, |dt| < I, both times inside the window, NaN "
+         "positions ignored) with each pair's |dt| and distance class, and TLC checks the transposition law; TLC-enumerated "
+         "pairs of small datasets with the oracle for every parameter combination are replayed on Collocator.collocate in "
+         "both argument orders, as linear / time-dimension / scan-line-grid datasets, on three great-circle embeddings, with "
+         "threshold spellings and tuning parameters, and again inflated by >1000 far-away points per side so that the "
+         "temporally pre-binned path (>10^6 candidates) handles the same scenario; call histories on ONE Collocator "
+         "(including a fine-scale family whose datasets are np.allclose without being equal) and random clouds up to 150 "
+         "points are validated by CollocTrace.tla.",
+    ref="DESIGN.md §5 C04",
+    note="Trusted: TLC, CollocProps (~50 lines) on GeoIndexProps, the ring embedding with mid-gap thresholds, one-minute "
+         "ticks, the id variable attached by the harness. The start/end window is specified together with max_interval "
+         "(typhon documents a purely spatial search for max_interval=None); max_distance=None is not implemented by typhon "
+         "and not exercised; dimensions always carry unique coordinate labels as the property requires.",
+    technique="TLA+ spec (CollocProps) evaluated/model-checked with TLC; TLC-generated cases replayed into "
+              "Collocator.collocate; recorded call histories validated by TLC (CollocTrace)")
+
 NOT_APPLICABLE = {
     "C07": "Every clause concerns floating-point accuracy of sin/cos/arctan2/sqrt compositions or convergence of a "
            "fixed-point iteration over a continuous domain; TLA+/TLC has no reals or transcendental functions and there "
